@@ -84,6 +84,8 @@ DistinctNames(L) == Cardinality({L.cd[i].dname.id : i \in 1..NEntries(L)})
 Readable(L) ==
    /\ L.ok /\ L.big = <<>> /\ W1(L) /\ W2(L) /\ W4(L) /\ W6(L) /\ W7(L) /\ W10(L) /\ W11(L)
    /\ \A i \in 1..NEntries(L) : L.cd[i].xjunk = 0 /\ L.lf[i].data_in_range
+   \* (a record under the AE-x id that is not an AE-x record - wrong length - is malformed: such an archive may be refused)
+   /\ \A i \in 1..NEntries(L) : \A j \in 1..Len(L.cd[i].extra) : L.cd[i].extra[j].id = 39169 => L.cd[i].extra[j].len = 7 /\ Len(L.cd[i].aes) = 1
    /\ (HasZ64(L) => L.eocd.trailing = 0)
    /\ L.eocd.clen + L.eocd.trailing <= Thr16
 
